@@ -1,18 +1,28 @@
 """ddmin-style minimisation of a failing run while the same (oracle, signature) persists."""
 import copy
+import os
+import signal
 
 from .core import vkey, HarnessError
 
 
 def _fails(scn, L, run, key, counter):
+    """Does `run` show the violation `key`?  Every candidate is executed in a fresh fork of this (clean) process, so
+    state left behind by earlier candidates (caches, memo tables a defect may have introduced) cannot fake a reproduction."""
     counter[0] += 1
-    try:
-        res = scn.execute(L, run)
-    except HarnessError:
-        return False
-    except Exception:
-        return False
-    return any(vkey(v['oracle'], v['sig']) == key for v in res['violations'])
+    pid = os.fork()
+    if pid == 0:
+        code = 0
+        try:
+            signal.alarm(180)
+            res = scn.execute(L, run)
+            if any(vkey(v['oracle'], v['sig']) == key for v in res['violations']):
+                code = 3
+        except BaseException:
+            code = 0
+        os._exit(code)
+    _, status = os.waitpid(pid, 0)
+    return os.WIFEXITED(status) and os.WEXITSTATUS(status) == 3
 
 
 def minimise(scn, L, run, key, budget=300):
